@@ -328,18 +328,11 @@ def construct {V} (S : Spec) (O : ValOps V) (nprev : Nat) (rawCols cleanCols : L
 
 /-! ### driver -/
 
-inductive Term where
-  | uninit
-  | app (c : String) (args : List Term)
-  | cast (k : BaseKind) (bits : Nat) (t : Term)
-  deriving Repr, Inhabited
-
-partial def Term.show : Term → String
-  | .uninit => "?"
-  | .app c args => c ++ "(" ++ ",".intercalate (args.map Term.show) ++ ")"
-  | .cast k b t => "<" ++ toString (Dt.mk k b []) ++ ">" ++ t.show
-
-def termOps : ValOps Term := { uninit := .uninit, app := .app, cast := .cast }
+/-- column values as printable terms: `<f32>sigmavMid_com(<f32>sigmavMaj_com(),<f32>sigmavMin_com())` -/
+def strOps : ValOps String :=
+  { uninit := "?"
+    app := fun c args => c ++ "(" ++ ",".intercalate args ++ ")"
+    cast := fun k b v => "<" ++ toString (Dt.mk k b []) ++ ">" ++ v }
 
 def parseNames (s : String) : List String := if s = "-" ∨ s = "" then [] else s.splitOn ","
 
@@ -356,10 +349,10 @@ def handle (args : List String) : String :=
   | ["load", req, cleaned, ab, lc, nprev, rawc, cleanc] =>
     match parseReq req, parseBool? cleaned, parseBool? lc, parseNat? nprev with
     | some req, some cleaned, some lc, some nprev =>
-      match construct Spec.generated termOps nprev (parseNames rawc) (parseNames cleanc) req cleaned (parseNames ab) lc with
+      match construct Spec.generated strOps nprev (parseNames rawc) (parseNames cleanc) req cleaned (parseNames ab) lc with
       | .error e => s!"err {e}"
       | .ok r =>
-        let cols := r.table.cols.map (fun p => s!"{p.1}:{p.2}:{(r.table.val p.1).show}")
+        let cols := r.table.cols.map (fun p => s!"{p.1}:{p.2}:{r.table.val p.1}")
         s!"ok fields={showList r.fields} cleaned={showList r.cleanedFields} fwd={showList r.deps.fieldsWithDeps} extra={showList r.deps.extra} raw={showList r.deps.raw} cols={if cols.isEmpty then "-" else ";".intercalate cols}"
     | _, _, _, _ => "bad-op"
   | _ => "bad-op"
